@@ -154,6 +154,19 @@ theorem C02_source_resolve (req : MaxlagReq) (ds : List Rat) :
     Gen.resolveGen req ds = resolveMaxlag req ds := by
   cases req <;> rfl
 
+/-- a maximum lag requested as 'median' / 'mean' is that distance itself, whatever its magnitude -
+in particular it is not re-read as a ratio of the largest distance when it is below 1 (normalised
+coordinates); only a *number* below 1 is a ratio -/
+theorem C02_string_maxlag (ds : List Rat) (v : Rat) :
+    Gen.resolveGen .median ds = median ds ∧ Gen.resolveGen .mean ds = some (meanR ds) ∧
+    (v < 1 → Gen.resolveGen (.num v) ds = some (v * maxR ds)) ∧
+    (1 ≤ v → Gen.resolveGen (.num v) ds = some v) := by
+  refine ⟨rfl, rfl, fun h => by simp [Gen.resolveGen, h], fun h => by simp [Gen.resolveGen, not_lt.2 h]⟩
+
+/-- non-vacuity: distances in the unit square - the median 2/5 stays 2/5 (as a ratio it would be 6/25) -/
+example : Gen.resolveGen .median [1/5, 2/5, 3/5] = some (2/5) ∧
+    Gen.resolveGen (.num (2/5)) [1/5, 2/5, 3/5] = some (6/25) := by decide +kernel
+
 /-- every binning function clips maxlag against the largest distance with the documented
 statement and (where it uses the distances) selects those within it; `even` / `uniform` return the
 documented constructions -/
